@@ -167,7 +167,7 @@ package results
 //@        forall(k, 0, len(varInfoList.VarVec), streq(varInfoList.VarVec[k].ExtraGlobal.StrProPre, strProPre)
 //@            && forall(j, k + 1, len(varInfoList.VarVec), !streq(varInfoList.VarVec[j].ExtraGlobal.StrProPre, strProPre))
 //@            ==> result0 && result1 == varInfoList.VarVec[k])
-//@   loop 0 invariant i >= -1 && i < len(varInfoList.VarVec) && varInfoList != nil
+//@   loop 0 invariant [C09,C01] i >= -1 && i < len(varInfoList.VarVec) && varInfoList != nil
 //@        && forall(j, i + 1, len(varInfoList.VarVec), !streq(varInfoList.VarVec[j].ExtraGlobal.StrProPre, strProPre))
 //@ end
 
